@@ -2133,3 +2133,29 @@ def c13_history(rp):
     if verdict is not None:
         return True, f"{rp['model']}.{rp['op']} on lists edited in place after an accepted {rp['first']} ({rp['what']} in a player slot) {verdict}"
     return after != before, "rejected" + (" but something was modified" if after != before else "")
+
+
+@checker("c13_long_vector")
+def c13_long_vector(rp):
+    """a vector of n elements with one non-number at position j must be rejected before any side effect"""
+    import decimal
+    H, HR = model_cls(rp["model"]), rating_cls(rp["model"])
+    n, j = rp["n"], rp["j"]
+    for bad in ("abc", None, decimal.Decimal(3), [1], (2,), {"a": 1}, object()):
+        m = H()
+        teams = [[HR(25.0 + k, 8.0)] for k in range(n)]
+        vals = list(range(n))
+        vals[j] = bad
+        before = [dict(p.__dict__) for t in teams for p in t] + [dict(m.__dict__)]
+        try:
+            m.rate(teams, **{rp["vec"]: vals})
+            verdict = "returned normally"
+        except (TypeError, ValueError):
+            verdict = None
+        except Exception as e:  # noqa: BLE001
+            verdict = f"raised {type(e).__name__}"
+        after = [dict(p.__dict__) for t in teams for p in t] + [dict(m.__dict__)]
+        if verdict is not None or after != before:
+            return True, (f"{rp['model']}.rate({n} teams, {rp['vec']} with {bad!r} at position {j}) " +
+                          (verdict or "was rejected, but the ratings or the model had already been modified"))
+    return False, "rejected without side effect"
